@@ -5,7 +5,10 @@ package art
 // Harness primitives. Under the symbolic executor every vp* call is intercepted by name and these
 // bodies are never looked at; natively (replay) they are driven by a tape of concrete values.
 
-import "math"
+import (
+	"math"
+	"runtime"
+)
 
 type vpTapeEntry struct {
 	W uint8  `json:"w"`
@@ -191,3 +194,23 @@ func vpFpIsNaN32(a uint32) bool { x := math.Float32frombits(a); return x != x }
 func vpFpLt64(a, b uint64) bool { return math.Float64frombits(a) < math.Float64frombits(b) }
 func vpFpEq64(a, b uint64) bool { return math.Float64frombits(a) == math.Float64frombits(b) }
 func vpFpIsNaN64(a uint64) bool { x := math.Float64frombits(a); return x != x }
+
+// vpRetainedTree: bytes kept alive by the tree. Executor: exact size of the objects reachable from t in its
+// heap model. Native: live heap after two forced collections.
+func vpRetainedTree(t any) uint64 {
+	runtime.GC()
+	runtime.GC()
+	var m runtime.MemStats
+	runtime.ReadMemStats(&m)
+	runtime.KeepAlive(t)
+	return m.HeapAlloc
+}
+
+// vpReps: how often a cycle is repeated: sym under the executor (induction), nat natively (amplification).
+func vpReps(sym, nat int) int { return nat }
+
+// vpNoGrowth: after <= before + slack. Native measurements get 256 KiB of additional slack.
+func vpNoGrowth(before, after, slack uint64) bool { return after <= before+slack+256<<10 }
+
+// vpGCNative: native replays of C18 force collections between operations.
+var vpGCNative = true
